@@ -41,7 +41,7 @@ rm -f $DEMO
 mkdir -p /tmp/chkv_$ID; cp /verif/known_findings.txt /tmp/chkv_$ID/
 FIRED=""
 for p in C01 C02 C03 C04 C05 C06 C07 C08 C09 C10 C11 C12 C13 C14 C15 C16 C17 C18 C19 C20; do
-  out=$(/verif/bin/stcheck -property $p -repo $SCR -verif /tmp/chkv_$ID 2>&1 | grep '^FAIL' | awk '{print $2}' | cut -d: -f1 | sort -u | tr '\n' ' ')
+  out=$(${STCHECK:-/verif/bin/stcheck} -property $p -repo $SCR -verif /tmp/chkv_$ID 2>&1 | grep '^FAIL' | awk '{print $2}' | cut -d: -f1 | sort -u | tr '\n' ' ')
   [ -n "$out" ] && FIRED="$FIRED $out"
 done
 rm -rf /tmp/chkv_$ID
